@@ -98,6 +98,15 @@ func runOp(s *Session, a Args) (res Res) {
 	if !ok {
 		return Res{"panic": false, "hang": false, "unknown_op": true}
 	}
+	// process-level state that must not matter: an op may ask for a local time zone (time.Local is process-wide, so such ops are
+	// serialised among themselves; the lock is taken before the deadline starts to run)
+	if a.Has("localoffset") {
+		localZoneMu.Lock()
+		defer localZoneMu.Unlock()
+		saved := time.Local
+		time.Local = time.FixedZone("local", a.Int("localoffset"))
+		defer func() { time.Local = saved }()
+	}
 	type out struct {
 		r   Res
 		pan string
